@@ -129,9 +129,32 @@ __asan_poison_memory_region(void const volatile* addr, size_t size);
 #define GUARD_POISON(a, n) ((void)0)
 #endif
 
+// the g_guard_fail_in-th guarded allocation from now is refused once
+static int g_guard_fail_in;
+static bool g_guard_fail_fired;
+
+void
+guard_fail_nth(int k)
+{
+    g_guard_fail_in = k;
+    g_guard_fail_fired = false;
+}
+
+bool
+guard_fail_fired()
+{
+    return g_guard_fail_fired;
+}
+
 void*
 guard_alloc(size_t align, size_t n)
 {
+    if (g_guard_fail_in > 0 && --g_guard_fail_in == 0) {
+        g_guard_fail_fired = true;
+        sim::probe("fault.guarded_allocation_refused");
+        errno = ENOMEM;
+        return nullptr;
+    }
     const size_t page = 4096;
     if (align < 16)
         align = 16;
@@ -187,6 +210,33 @@ struct Block
 static bool g_track;
 static std::map<const void*, Block> g_live;
 static uint64_t g_allocs, g_frees;
+// allocation failure: the g_fail_in-th tracked allocation from now fails once
+static int g_fail_in;
+static int g_fail_fired; // 0 no, 1 malloc/calloc, 2 realloc
+
+void
+track_fail_nth(int k)
+{
+    g_fail_in = k;
+    g_fail_fired = 0;
+}
+
+int
+track_fail_fired()
+{
+    return g_fail_fired;
+}
+
+static bool
+fail_now(int kind)
+{
+    if (!g_track || g_fail_in <= 0)
+        return false;
+    if (--g_fail_in > 0)
+        return false;
+    g_fail_fired = kind;
+    return true;
+}
 
 void
 track_reset(bool enable)
@@ -341,6 +391,10 @@ extern "C"
     // -------------------------------------------------- allocation shim
     void* sim_malloc(size_t n)
     {
+        if (simseam::fail_now(1)) {
+            errno = ENOMEM;
+            return nullptr;
+        }
         void* p = malloc(n);
         if (g_track && p) {
             g_live[p] = Block{ n };
@@ -351,6 +405,10 @@ extern "C"
 
     void* sim_calloc(size_t a, size_t b)
     {
+        if (simseam::fail_now(1)) {
+            errno = ENOMEM;
+            return nullptr;
+        }
         void* p = calloc(a, b);
         if (g_track && p) {
             g_live[p] = Block{ a * b };
@@ -366,6 +424,10 @@ extern "C"
                 sim::oracle_fail("C13.realloc_of_unowned_block",
                                  "realloc of a pointer that is not a live "
                                  "allocation of the properties module");
+        }
+        if (simseam::fail_now(2)) {
+            errno = ENOMEM; // the old block stays allocated
+            return nullptr;
         }
         void* p = realloc(q, n);
         if (g_track) {
